@@ -349,6 +349,15 @@ theorem parse_cache_once (env : Env) (fuel : Nat) (c : Cls) (st : St) (h : st.se
     (run env fuel c st).2.seen.Nodup :=
   run_rel (cacheR_ok env) fuel c st h
 
+/-- C20: the number of `item.parse_line` calls (string-level parse attempts, cache hits
+included) made by any class call is at most the number of `reader.get_item()` calls it
+makes: all the work of the block matcher is accounted for by item reads. -/
+theorem queries_le_gets (env : Env) (fuel : Nat) (c : Cls) (st : St) :
+    NQ (run env fuel c st).2 - NQ st ≤ NG (run env fuel c st).2 - NG st := by
+  have h : CostR st (run env fuel c st).2 := run_rel (costR_ok env) fuel c st
+  unfold CostR at h
+  omega
+
 /-! ## witnesses on a concrete small table -/
 
 namespace W
@@ -561,6 +570,64 @@ theorem stale_table_witness :
     resStale.2.sym.chain = [] ∧ resStale.2.sym.forest.length = 1 ∧
     leaks resStale.2.log = 0 ∧ D resStale.2 = 0 := by
   decide
+
+/-! ### F-C20-2: the cost of nested non-block DO loops with distinct labels doubles per level -/
+
+namespace K
+/-- 0 Exec = BlockDo | ActionDo | Stmt; 1 BlockDo (`Block_Label_Do_Construct`: label-DO …
+`End_Do`, ticket-499 abort applies); 2 ActionDo (`Action_Term_Do_Construct`: label-DO …
+action statement); 3 Stmt; 4 LabelDo; 5 End_Do = 6 | 7; 8 Do_Term_Action = Stmt -/
+def kind : Cls → Kind
+  | 0 => .alt [1, 2, 3]
+  | 1 => .block { start := some 4, subs := [0], end_ := some 5, endAll := [5, 6, 7],
+                  matchLabels := true, doHook := true } []
+  | 2 => .block { start := some 4, subs := [0], end_ := some 8, endAll := [8, 3],
+                  matchLabels := true, doHook := true } []
+  | 5 => .alt [6, 7]
+  | 8 => .alt [3]
+  | 9 => .comment
+  | 10 => .directive
+  | 12 => .cpp []
+  | _ => .leaf
+def tbl : Table :=
+  { kind := kind, isa := fun c => [c], comment := 9, directive := 10, includeStmt := 11,
+    cppFn := 12, labelDo := [4], endDo := 5, endDoStmt := 6, continueStmt := 7, elseIf := 99,
+    else_ := 99, endIf := 99, maskedElsewhere := 99, elsewhere := 99, endWhere := 99,
+    quirks := {} }
+def doInfo (i : Nat) : NodeInfo :=
+  { cls := 4, isa := [4], hasStartLabel := true, startLabel := some (i + 1), hasEndLabel := true }
+def stInfo (l : Nat) : NodeInfo :=
+  { cls := 3, isa := [3], hasEndLabel := true, endLabel := some l }
+/-- `do 1 … / do 2 … / … / do d … / d x=1 / … / 2 x=1 / 1 x=1` -/
+def orc (d : Nat) : Oracle := fun i c =>
+  if i < d then
+    (if c = 4 then { res := LeafRes.matched (doInfo i) } else { res := LeafRes.none })
+  else
+    (if c = 3 then { res := LeafRes.matched (stInfo (2 * d - i)) } else { res := LeafRes.none })
+def env (d : Nat) : Env :=
+  { tbl := tbl, orc := orc d, processDirectives := false, blank := fun p => p == 0,
+    blankEof := false }
+def items (n : Nat) : List Item :=
+  (List.range n).map fun i => { id := i, kind := .line, directive := false }
+def run (d : Nat) : Outcome × St := Fp.Block.run (env d) (4 * d + 8) 0 (St.init (items (2 * d)))
+/-- the whole nest is matched -/
+def ok (d : Nat) : Bool :=
+  match (run d).1 with
+  | .tree t => t.frontier.length == 2 * d
+  | _ => false
+def queries (d : Nat) : Nat := NQ (run d).2
+end K
+
+/-- depth 1, 2, 3, 4, 5: 16, 50, 118, 254, 526 `parse_line` calls for 2, 4, 6, 8, 10 lines:
+each further level more than doubles the cost (the block-DO attempt of every level re-parses
+the whole inner nest before the ticket-499 abort stops it at its own label, then the
+action-terminated alternative parses it again). -/
+theorem cost_doubles_witness :
+    (K.ok 1 && K.ok 2 && K.ok 3 && K.ok 4 && K.ok 5) = true ∧
+    [K.queries 1, K.queries 2, K.queries 3, K.queries 4, K.queries 5] = [16, 50, 118, 254, 526] ∧
+    2 * K.queries 1 ≤ K.queries 2 ∧ 2 * K.queries 2 ≤ K.queries 3 ∧
+    2 * K.queries 3 ≤ K.queries 4 ∧ 2 * K.queries 4 ≤ K.queries 5 := by
+  decide +kernel
 
 /-! ## non-vacuity -/
 
